@@ -212,6 +212,15 @@ func keySaverStructure(c *an.Ctx, saver *ssa.Function) {
 	} else {
 		dt := sfi.Term(write.Call.Args[1])
 		okData := strings.Contains(dt.Key(), "GCAKey") && dt.K == an.KSlice
+		if !okData && dt.K == an.KSlice && dt.A[0].K == an.KAlloc {
+			// a local copy of the key (key := gr.GCAKey; WriteFile(path, key[:], ..)): what the local holds at the write
+			if al, ok := dt.A[0].Val.(*ssa.Alloc); ok {
+				ct := sfi.ContentAt(al, write)
+				lo, _ := dt.A[1].IsConst()
+				hi, _ := dt.A[2].IsConst()
+				okData = ct != nil && ct.Key() == sfi.FieldOfTerm(GR, "GCAKey").Key() && lo == "0" && hi == "end"
+			}
+		}
 		c.Check(okData, "PERSIST", saver, write.Pos(), an.KeyOf(saver, "keyfile-data"), "the file receives exactly the registered key (gr.GCAKey[:])", "data "+short(dt.Key()))
 		for _, b := range saver.Blocks {
 			for _, in := range b.Instrs {
